@@ -47,7 +47,7 @@ def replay(case, ctx):
     # (scheme, decade units of impedance / voltage / angular frequency): the model must be right for element values over many decades
     # (kOhm - nF - MHz, mOhm - F, ...), where the entries of A span ten and more decades
     UNITS = [(6, 0, 0), (-5, 0, 3), (3, 0, 6), (0, 0, -3), (3, 2, 9)]
-    variants = case.get('schemes') or [(0,), ((h % (N_SCHEMES - 1)) + 1,), (((h >> 7) % N_SCHEMES), UNITS[(h >> 3) % len(UNITS)])]
+    variants = case.get('schemes') or [(0,), ((h % (N_SCHEMES - 1)) + 1 + N_SCHEMES * (1 + (h >> 13) % 2),), (((h >> 7) % N_SCHEMES) + N_SCHEMES * ((h >> 14) % 3), UNITS[(h >> 3) % len(UNITS)])]
     if 'schemes' not in case and (ctx.get('tier') == 'thorough' or h % 2):
         # the same circuit under the same names (scheme 0 was analysed first) with other capacitances / inductances only
         variants.append((0, (0, 0, [1, -2, 4][(h >> 2) % 3])))
